@@ -11,6 +11,7 @@ Prints a JSON summary; exit 0 iff the change is confirmed AND caught by at least
 import sys, os, json, subprocess, shutil, tempfile
 
 seed = os.path.abspath(sys.argv[1])
+ROOT = os.path.dirname(os.path.dirname(os.path.abspath(__file__)))      # the tree this script lives in (/verif, or a copy used to evaluate seeds in parallel)
 meta = json.load(open(os.path.join(seed, "meta.json")))
 checks = sys.argv[2:] or [meta["property"]]
 tier = os.environ.get("EVAL_TIER", "quick")
@@ -40,7 +41,7 @@ try:
     res["confirmed"] = bool(res["patch_applies"] and res["suite_ok"] and res["demo_clean_rc"] == 0 and res["demo_mutant_rc"] == 1)
     caught = False
     for c in checks:
-        p = subprocess.run(["./check", c, "--tier", tier], cwd="/verif",
+        p = subprocess.run(["./check", c, "--tier", tier], cwd=ROOT,
                            env=dict(os.environ, VERIF_REPO=scratch, VERIF_DEV=os.environ.get("VERIF_DEV", "0"),
                                     VERIF_EVIDENCE_DIR=os.path.join(scratch, "_evidence"),
                                     VERIF_REPLAY_DIR=os.path.join(scratch, "_replays")),
